@@ -9,7 +9,7 @@ VARIABLES l, viol
 
 ToCred(j) == [kind |-> j.kind, var |-> j.var, fs |-> SeqToSet(j.fs), user |-> j.user]
 ToCase(j) == [cfg |-> SeqToSet(j.cfg), cred |-> ToCred(j.cred), cred2 |-> ToCred(j.cred2), method |-> j.method,
-              ctype |-> j.ctype, target |-> j.target, sealed |-> j.sealed, origin |-> j.origin]
+              ctype |-> j.ctype, target |-> j.target, sealed |-> j.sealed, origin |-> j.origin, keyload |-> j.keyload]
 
 TInit == l = 1 /\ viol = {} /\ req = [cfg |-> {}] /\ resp = Pending
 TNext == /\ l <= Len(TraceLog)
